@@ -47,7 +47,7 @@ func c13Doc(t *rapid.T, tag string) map[string]any {
 // c13Query draws one query over a document built with the given tag.
 func c13Query(t *rapid.T, tag string, site int, readOnlyOnly bool) (q string, orderOpen bool, kind string, reader bool) {
 	kinds := []string{"filter", "subquery", "exists", "join", "pjoin", "group", "async", "order", "cte", "phash", "reader", "in_sub", "spinasync", "derived",
-		"range_reader", "range_from", "distinct_reader", "cte_async", "derived_async", "sub_async", "range_col"}
+		"range_reader", "range_from", "distinct_reader", "cte_async", "derived_async", "sub_async", "range_col", "pjoin_fail", "var_corunner"}
 	kind = rapid.SampledFrom(kinds).Draw(t, "qkind")
 	k := rapid.IntRange(0, 4).Draw(t, "k") * 10
 	T, U, id, a, s, n, v, b := "t"+tag, "u"+tag, "id"+tag, "a"+tag, "s"+tag, "n"+tag, "v"+tag, "b"+tag
@@ -85,6 +85,14 @@ func c13Query(t *rapid.T, tag string, site int, readOnlyOnly bool) (q string, or
 		return fmt.Sprintf("WITH c%s AS (SELECT %s FROM %s WHERE %s >= %d) SELECT * FROM c%s", tag, id, T, a, k, tag), false, kind, false
 	case "derived":
 		return fmt.Sprintf("SELECT * FROM (SELECT %s, %s FROM %s WHERE %s >= %d) d", id, a, T, a, k), false, kind, false
+	case "pjoin_fail":
+		// ON fails (not boolean) for every left key: several workers fail at once
+		jt := rapid.SampledFrom([]string{"PARALLEL JOIN", "PARALLEL LEFT JOIN", "PARALLEL STRAIGHT_JOIN", "PARALLEL RIGHT JOIN"}).Draw(t, "pfjt")
+		return fmt.Sprintf("SELECT * FROM %s x %s %s y ON x.%s %s y.%s AND x.%s", T, jt, U, id, rapid.SampledFrom([]string{"=", "<", ">="}).Draw(t, "pfop"), id, s), true, kind, false
+	case "var_corunner":
+		// user code on an ASYNC goroutine writes the query's variable context through the exported
+		// SETVAR function while nested selects of the same statement read it
+		return fmt.Sprintf("SELECT %s, ASYNC.setv(%d, 'k', %s) AS w, (SELECT %s FROM %s WHERE GETVAR('k') IS NULL OR %s >= 0) AS sub FROM %s", id, site, id, v, n, v, T), false, kind, false
 	case "range_reader":
 		// open-ended slices: the cached parse of the selector text must not remember one document's array length
 		sel := rapid.SampledFrom([]string{T + "[(1:end)]." + id, T + "[(begin:2)]." + a, T + "[(0:end)]." + n + "." + v, T + "[(begin:end)]." + s}).Draw(t, "rsel")
@@ -115,6 +123,7 @@ func genC13(t *rapid.T) *Bundle {
 	var clients []casefmt.Client
 	exp := c13Expect{Config: config}
 	site := 0
+	var varsets []map[string]any
 	tagFor := func(ci int) string {
 		if config == "separate_cold" {
 			return fmt.Sprintf("_%d", ci)
@@ -134,12 +143,17 @@ func genC13(t *rapid.T) *Bundle {
 		var open []bool
 		for oi := 0; oi < nops; oi++ {
 			site++
-			q, oo, _, reader := c13Query(t, tag, site, config == "shared")
+			q, oo, qkind, reader := c13Query(t, tag, site, config == "shared")
 			di := ci
 			if config == "shared" {
 				di = 0
 			}
-			cl.Ops = append(cl.Ops, casefmt.Op{Doc: di, Vars: -1, Query: q, Reader: reader})
+			vi := -1
+			if qkind == "var_corunner" {
+				varsets = append(varsets, map[string]any{})
+				vi = len(varsets) - 1
+			}
+			cl.Ops = append(cl.Ops, casefmt.Op{Doc: di, Vars: vi, Query: q, Reader: reader})
 			open = append(open, oo)
 		}
 		clients = append(clients, cl)
@@ -152,6 +166,11 @@ func genC13(t *rapid.T) *Bundle {
 		for ci := 1; ci < nclients; ci++ {
 			op := clients[ci].Ops[0]
 			op.Doc = 0
+			if op.Vars >= 0 {
+				// a variable map belongs to one caller: the warm-up copy gets its own
+				varsets = append(varsets, map[string]any{})
+				op.Vars = len(varsets) - 1
+			}
 			warm = append(warm, op)
 		}
 		clients[0].Ops = append(warm, clients[0].Ops...)
@@ -162,7 +181,7 @@ func genC13(t *rapid.T) *Bundle {
 		exp.OrderOpen[0] = append(pre, exp.OrderOpen[0]...)
 	}
 	sim := drawSim(t, "")
-	c := casefmt.Case{Prop: "C13", Sim: sim, Docs: docs, Clients: clients}
+	c := casefmt.Case{Prop: "C13", Sim: sim, Docs: docs, Clients: clients, Vars: varsets}
 	var sites []int
 	for i := 1; i <= site; i++ {
 		sites = append(sites, i)
